@@ -154,7 +154,24 @@ def match_known(ob: Ob, prop: str, known: list[dict]) -> dict | None:
             continue
         if ob.key in k.get("keys", []):
             return k
+        # the same construct after the enclosing private function was split or renamed inside
+        # its module: same rule, same selector and digest, other function of the same module
+        rid, _, rest = ob.key.partition(":")
+        construct, _, tail = rest.partition(":")
+        for kk in k.get("keys", []):
+            rid2, _, rest2 = kk.partition(":")
+            construct2, _, tail2 = rest2.partition(":")
+            if rid == rid2 and tail == tail2 and construct != construct2 and _same_module(construct, construct2):
+                return k
     return None
+
+
+def _same_module(q1: str, q2: str) -> bool:
+    """two qualified function names of one module (cubed.core.ops._store_array /
+    cubed.core.ops._retarget_lazy_array); a private name on at least one side"""
+    m1, _, n1 = q1.rpartition(".")
+    m2, _, n2 = q2.rpartition(".")
+    return m1 == m2 and (n1.startswith("_") or n2.startswith("_"))
 
 
 @dataclass
